@@ -90,12 +90,14 @@ LawSwap == LET M == N(e)
 MCSets == { <<Lib(1)>>, <<Lib(2)>>, <<Lib(3)>>, <<Prefix(Lib(2), "q:"), Only(Lib(1), <<"o">>)>>,
             <<Rename(Lib(3), <<<<"t2", "t">>>>), Only(Lib(2), <<"t">>)>> }
 MCNames == {"a", "o", "x", "y", "t", "t2", "q:t", "g", "m", "pm", "i", "h1"}
-RNext == \/ \E s \in MCSets : BeginImport(s)
-         \/ \E l \in Libs : Body(l)
-         \/ EndImport
-         \/ \E n \in MCNames : Refer(n, Expected(Vis, ticks, n)[1], Expected(Vis, ticks, n)[2])
-         \/ Discard
-RunSpec == RInit /\ d = 0 /\ e = Lib(1) /\ [][RNext /\ UNCHANGED <<bvars, tab>>]_<<bvars, rvars, tab>>
+Keep == UNCHANGED <<bvars, tab>>
+DoBegin == Keep /\ \E s \in MCSets : BeginImport(s)
+DoBody == Keep /\ \E l \in Libs : Body(l)
+DoEnd == Keep /\ EndImport
+DoRefer == Keep /\ \E n \in MCNames : Refer(n, Expected(Vis, ticks, n)[1], Expected(Vis, ticks, n)[2])
+DoDiscard == Keep /\ Discard
+RNext == DoBegin \/ DoBody \/ DoEnd \/ DoRefer \/ DoDiscard
+RunSpec == RInit /\ d = 0 /\ e = Lib(1) /\ [][RNext]_<<bvars, rvars, tab>>
 RunConstraint == \A l \in Libs : ticks[l] <= MaxTicks
 \* the batch formula used by the trace specification = referring to the names one at a time
 RECURSIVE SeqExpected(_, _, _)
